@@ -26,11 +26,17 @@ STARTS = [(1, 1), (3, 7)]  # initiator (next_num_out, next_num_in); the acceptor
 COMP_POOL = [("INITIATOR", "ACCEPTOR"), ("CLI", "SRV"), ("FIRM", "EXCH"), ("I1", "A1")]
 
 MIDS = ["IA", "AA", "IT", "AT", "IH", "AH"]
+MIDS_U = MIDS + ["IU", "AU"]  # + application message with non-ASCII text, one per side
+# Latin-1 high, BMP, CJK and one astral character (utf-8: 2, 3, 3 and 4 bytes)
+U_ACCOUNT = "M\u00fcller-\u00d1and\u00fa"
+U_TEXT = "caf\u00e9 \u20ac5 \u6f22\u5b57 \U0001f600"
+U_TICKER = "M\u00dcL.\u20ac"
 ENDS = ["IO", "AO"]
 STEP_NAME = {
     "IL": "initiator_logon", "IA": "initiator_app_message", "IT": "initiator_test_request",
     "IH": "initiator_heartbeat", "IO": "initiator_logout", "AA": "acceptor_app_message",
     "AT": "acceptor_test_request", "AH": "acceptor_heartbeat", "AO": "acceptor_logout",
+    "IU": "initiator_app_message_non_ascii", "AU": "acceptor_app_message_non_ascii",
 }
 MASKED = {"52", "10", "9"}
 CLAUSE = ("A connection driven against the helper's simulated acceptor through a clean Logon and message exchange "
@@ -76,6 +82,25 @@ def m_acc_app(i):
     from asyncfix import FIXMessage, FMsg
     return FIXMessage(FMsg.EXECUTIONREPORT, {37: "7", 17: f"e{i}", 150: "0", 39: "0", 55: "TICK", 54: "1",
                                              151: "10", 14: "0", 6: "0"})
+
+
+def m_ini_app_u(i):
+    from asyncfix import FIXMessage, FMsg
+    return FIXMessage(FMsg.NEWORDERSINGLE, {11: f"u{i}", 1: U_ACCOUNT, 55: U_TICKER, 54: "1", 38: "10", 40: "2",
+                                            44: "1.5", 60: "20240101-00:00:00.000", 58: U_TEXT})
+
+
+def m_acc_app_u(ft, i):
+    """Execution report fabricated by a helper instance (the world's own in TesterWorld, a detached one in
+    RealWorld) for an order with a non-ASCII account / ticker, plus a non-ASCII Text."""
+    from asyncfix.protocol.common import FExecType, FOrdStatus
+    from asyncfix.protocol.order_single import FIXNewOrderSingle
+
+    o = FIXNewOrderSingle(f"u{i}", U_TICKER, side="1", price=10.5, qty=10, account=U_ACCOUNT)
+    ft.order_register_single(o)
+    m = ft.fix_exec_report_msg(o, o.clord_id, FExecType.PENDING_NEW, FOrdStatus.PENDING_NEW)
+    m[58] = U_TEXT
+    return m
 
 
 def m_plain(t):
@@ -145,6 +170,10 @@ class TesterWorld(_Base):
             r = self.call(c.send_msg(m_plain("0")))
         elif code == "IO":
             r = self.call(c.send_msg(m_plain("5")))
+        elif code == "IU":
+            r = self.call(c.send_msg(m_ini_app_u(i)))
+        elif code == "AU":
+            r = self.call(ft.reply(m_acc_app_u(ft, i)))
         elif code == "AA":
             r = self.call(ft.reply(m_acc_app(i)))
         elif code == "AT":
@@ -185,7 +214,10 @@ class RealWorld(_Base):
         from asyncfix.connection import ConnectionState
         from asyncfix.protocol import FIXProtocol44
 
+        from asyncfix import FIXTester
+
         _Client, Server, _Bare = classes()
+        self.fab = FIXTester(schema=None)  # detached: only fabricates the acceptor application's reports
         CLOCK.now = CLOCK.BASE
         self.loop = VLoop()
         self.loop.enter()
@@ -234,6 +266,10 @@ class RealWorld(_Base):
             return self.call(c.send_msg(m_plain("0")))
         if code == "IO":
             return self.call(c.send_msg(m_plain("5")))
+        if code == "IU":
+            return self.call(c.send_msg(m_ini_app_u(i)))
+        if code == "AU":
+            return self.call(s.send_msg(m_acc_app_u(self.fab, i)))
         if code == "AA":
             return self.call(s.send_msg(m_acc_app(i)))
         if code == "AT":
@@ -288,14 +324,22 @@ def run_script(comp, start, script):
     return None, len(script)
 
 
-def scripts(maxlen):
-    """Maximal clean scripts (every prefix is compared on the way): Logon first, nothing after a Logout."""
+def _scripts(maxlen, mids):
     for n in range(2, maxlen + 1):
-        for body in itertools.product(MIDS, repeat=n - 2):
+        for body in itertools.product(mids, repeat=n - 2):
             for e in ENDS:
                 yield ["IL"] + list(body) + [e]
-    for body in itertools.product(MIDS, repeat=maxlen - 1):
+    for body in itertools.product(mids, repeat=maxlen - 1):
         yield ["IL"] + list(body)
+
+
+def scripts(maxlen):
+    """Maximal clean scripts (every prefix is compared on the way): Logon first, nothing after a Logout.
+    ASCII alphabet up to maxlen; with the two non-ASCII application messages up to maxlen - 1."""
+    for sc in _scripts(maxlen - 1, MIDS_U):
+        if "IU" in sc or "AU" in sc:
+            yield sc
+    yield from _scripts(maxlen, MIDS)
 
 
 _COMP = None
